@@ -176,6 +176,8 @@ def work(job):
         resource.setrlimit(resource.RLIMIT_AS, (lim, lim))
     except Exception:      # noqa
         pass
+    import warnings
+    warnings.filterwarnings('ignore')
     from . import gen, execu
     execu.gp()
     ora = oracle_of(spec['oracle'])
